@@ -103,6 +103,7 @@ def make_registry():
     permmodel.install_sklearn_utils(R)
     permmodel.install_isclose(R)
     permmodel.install_set_of_array(R)
+    permmodel.install_contiguous(R)
     from . import sparsemodel
     sparsemodel.install(R, models)
     return R
